@@ -139,6 +139,9 @@ def rule_c(ctx):
                       {"fallback_stores": [t["sp"] for _, t in fb_store]})
             before = [t["sp"] for dbb, t in data_store if ibb in cfg.reachable_after(r, dbb, unwind=False)]
             ctx.check(not before, rid, "install-before-publish@%s" % keyname(r.name), "no publish of the snapshot can precede the installing call", it["sp"], before)
+            late = [t["sp"] for fbb2, t in fb_store if fbb2 in cfg.reachable_after(r, ibb, unwind=False)]
+            ctx.check(not late, rid, "fallback-kept-until-publish@%s" % keyname(r.name), "the fallback is not overwritten between the installing call and the publish "
+                      "(a delivery in that window still finds it)", it["sp"], late)
             sig = [deep_strip(e) for e in flow(r).term_arg(ibb, 0)]
             for fbb, ft in fb_store:
                 vd = deps(r, flow(r).term_arg(fbb, 1))
